@@ -25,6 +25,8 @@ from checks import hdrgen as H
 
 WORK = os.path.join(vlib.CACHE, "bg")
 TRAIT_NAMES = ["Alpha", "Beta", "Gamma", "Delta"]
+# trait names that are prefixes / suffixes of one another (the vtable fields of a group are named vtbl_<lower-cased trait name>)
+TRAIT_NAME_SETS = [["Alpha", "Beta", "Gamma", "Delta"], ["Alpha", "Beta", "Gamma", "Delta"], ["BufReader", "Reader", "Read", "AsyncRead"], ["Foo", "FooBar", "Bar", "BarFoo"]]
 METHOD_NAMES = ["get", "put", "run", "dup", "eat", "scan", "size", "poke"]
 GROUP_NAMES = ["Grp", "Feat"]
 ARG_NAMES = ["x", "y", "buf", "cb", "val", "out"]
@@ -42,6 +44,7 @@ def build(tier=None):
 # ------------------------------------------------------------------------------------------------ API generation
 def gen_api(rng, size="normal", c18=False):
     nt = 1 + rng.below(4 if size != "small" else 2)
+    tnames = rng.choice(TRAIT_NAME_SETS)
     traits = []
     for ti in range(nt):
         nm = 1 + rng.below(4 if size != "small" else 2)
@@ -63,7 +66,7 @@ def gen_api(rng, size="normal", c18=False):
             recv = rng.choice(["ref", "ref", "mut", "mut", "own"])
             ret = rng.choice(H.RET_KINDS) if rng.chance(3, 4) else "void"
             methods.append({"name": n, "recv": recv, "args": args, "ret": ret})
-        traits.append({"name": TRAIT_NAMES[ti], "methods": methods, "rettmp": rng.chance(1, 4)})
+        traits.append({"name": tnames[ti], "methods": methods, "rettmp": rng.chance(1, 4)})
     objects, seen = [], set()
     for _ in range(rng.below(4)):
         o = (rng.below(nt), rng.choice(["Box", "Box", "Mut", "Ref"]), rng.choice(["Arc", "Arc", "None"]))
